@@ -3,6 +3,7 @@ CONSTANTS
   RingBits = 1
   Mode = "single"
   Sample = TRUE
+  Runs = 40
 SPECIFICATION MacroSpec
 INVARIANT C01Single
 CHECK_DEADLOCK FALSE
